@@ -1,2 +1,85 @@
-(* placeholder *)
-From GT Require Import Base.Prelude Model.PDA.
+(* C09 — PDA acceptance test (pda_accepts_word) with the iteration limit of pda_epsilon_closure.
+   "The acceptance test never answers True for a word that has no accepting computation; it answers True for
+   every word that has one whenever each epsilon-closure it has to compute contains no more configurations than
+   the configured iteration limit, whatever value that limit is."
+   Model: Model/PDA.v.  `pda_eclose pick P limit R` returns (result, todo left over); todo <> [] means that the
+   closure was truncated by the limit.  `pda_accepts` returns (verdict, some closure was truncated); `pda_words`
+   (pda_words_up_to_n) returns (words, some closure was truncated).  `pick` is the order in which `todo.pop()`
+   delivers configurations: every statement holds for every admissible pick (picker_ok) and every limit.
+   The hypothesis `Forall (fun a => a <> peps P) w` (the word does not contain the epsilon symbol, automatic for
+   words over the input alphabet of a valid PDA) is necessary: see C09_accepts_needs_no_eps. *)
+From GT Require Import Base.Prelude Model.NFA Model.PDA Proofs.NFAProofs Proofs.PDAProofs.
+
+(* closure: soundness for every pick and every limit *)
+Theorem C09_eclose_sound : forall (pick : picker config) (P : pda) (limit : nat) (R res todo : list config),
+  picker_ok pick -> pda_eclose pick P limit R = (res, todo) ->
+  (forall c, In c R -> In c res) /\ (forall c, In c res -> exists r, In r R /\ pda_eps_star P r c) /\
+  incl todo res /\ NoDup res.
+Proof. exact (fun pick P limit R res todo Hp => @pda_eclose_sound pick P Hp limit R res todo). Qed.
+
+(* closure: exactness when it was not truncated *)
+Theorem C09_eclose_exact : forall (pick : picker config) (P : pda) (limit : nat) (R res : list config),
+  picker_ok pick -> pda_eclose pick P limit R = (res, []) ->
+  forall c, In c res <-> exists r, In r R /\ pda_eps_star P r c.
+Proof. exact (fun pick P limit R res Hp => @pda_eclose_exact pick P Hp limit R res). Qed.
+
+(* closure: no truncation when the true closure has at most `limit` elements *)
+Theorem C09_eclose_complete : forall (pick : picker config) (P : pda) (limit : nat) (R C : list config),
+  picker_ok pick ->
+  (forall c, (exists r, In r R /\ pda_eps_star P r c) -> In c C) -> NoDup C -> length C <= limit ->
+  exists res, pda_eclose pick P limit R = (res, []).
+Proof. exact (fun pick P limit R C Hp => @pda_eclose_complete pick P Hp limit R C). Qed.
+
+(* acceptance: never True for a word without an accepting computation *)
+Theorem C09_accepts_sound : forall (pick : picker config) (P : pda) (limit : nat) (w : word) (tr : bool),
+  picker_ok pick -> Forall (fun a => a <> peps P) w ->
+  pda_accepts pick P limit w = (true, tr) -> pda_lang P w.
+Proof. exact pda_accepts_sound. Qed.
+
+(* acceptance: exact when no closure was truncated *)
+Theorem C09_accepts_complete : forall (pick : picker config) (P : pda) (limit : nat) (w : word) (v : bool),
+  picker_ok pick -> Forall (fun a => a <> peps P) w ->
+  pda_accepts pick P limit w = (v, false) -> (v = true <-> pda_lang P w).
+Proof. exact pda_accepts_complete. Qed.
+
+(* the configurations after reading w, when nothing was truncated, are exactly those reachable by w *)
+Theorem C09_configs_exact : forall (pick : picker config) (P : pda) (limit : nat) (w : word) (R0 t0 R : list config),
+  picker_ok pick -> Forall (fun a => a <> peps P) w ->
+  pda_eclose pick P limit [(pq0 P, [])] = (R0, t0) ->
+  pda_run pick P limit w R0 (match t0 with [] => false | _ => true end) = (R, false) ->
+  forall c, In c R <-> pda_reach P (pq0 P, []) w c.
+Proof. exact pda_run_configs_exact. Qed.
+
+(* order independence (no hypothesis on the word) *)
+Theorem C09_accepts_pick_independent : forall (pick1 pick2 : picker config) (P : pda) (limit : nat) (w : word) (v1 v2 : bool),
+  picker_ok pick1 -> picker_ok pick2 ->
+  pda_accepts pick1 P limit w = (v1, false) -> pda_accepts pick2 P limit w = (v2, false) -> v1 = v2.
+Proof. exact pda_accepts_pick_independent. Qed.
+
+(* the hypothesis on the word cannot be dropped: a letter equal to the epsilon symbol is simulated as an
+   epsilon move *)
+Theorem C09_accepts_needs_no_eps :
+  pda_wf pda_cex /\ pda_accepts pick_head pda_cex 100 [9] = (true, false) /\ ~ pda_lang pda_cex [9].
+Proof. exact pda_accepts_sound_cex. Qed.
+
+(* enumeration of the accepted words up to length n *)
+Theorem C09_words_sound : forall (pick : picker config) (P : pda) (limit n : nat) (L : list word) (tr : bool),
+  picker_ok pick -> pda_wf P -> pda_words pick P limit n = (L, tr) ->
+  forall w, In w L -> length w <= n /\ Forall (fun a => In a (pSg P)) w /\ pda_lang P w.
+Proof. exact pda_words_sound. Qed.
+
+Theorem C09_words_exact : forall (pick : picker config) (P : pda) (limit n : nat) (L : list word),
+  picker_ok pick -> pda_wf P -> pda_words pick P limit n = (L, false) ->
+  forall w, In w L <-> length w <= n /\ Forall (fun a => In a (pSg P)) w /\ pda_lang P w.
+Proof. exact pda_words_exact. Qed.
+
+Print Assumptions C09_eclose_sound.
+Print Assumptions C09_eclose_exact.
+Print Assumptions C09_eclose_complete.
+Print Assumptions C09_accepts_sound.
+Print Assumptions C09_accepts_complete.
+Print Assumptions C09_configs_exact.
+Print Assumptions C09_accepts_pick_independent.
+Print Assumptions C09_accepts_needs_no_eps.
+Print Assumptions C09_words_sound.
+Print Assumptions C09_words_exact.
